@@ -89,6 +89,10 @@ def _arrays(tier, seed):
     out.append(("scale", [(60 + p, i * 1.0, 1.0) for i, p in enumerate((0, 2, 4, 5, 7, 9, 11, 12))]))
     out.append(("chords_and_overlaps", [(60, 0, 2), (64, 0, 2), (67, 0, 2), (72, 1, 3), (59, 2, 1), (62, 2, 1), (65, 2.5, 0.5), (60, 3, 0)]))
     out.append(("chromatic_sharps_context", [(68, 0, 1), (72, 1, 1), (75, 2, 1), (70, 3, 1), (73, 4, 1), (77, 5, 1), (69, 6, 1), (70, 7, 1), (68, 8, 1)]))
+    # a zero-duration note alone on its onset, directly before the final note / the final chord / two onsets before the end
+    out.append(("lone_grace_note_before_the_final_note", [(60, 0, 1), (62, 1, 0), (64, 2, 1)]))
+    out.append(("lone_grace_note_before_the_final_chord", [(60, 0, 1), (67, 1, 1), (74, 2, 0), (72, 3, 2), (64, 3, 2), (48, 3, 2)]))
+    out.append(("lone_grace_notes_in_the_middle_and_before_the_end", [(60, 0, 1), (62, 1, 0), (64, 2, 1), (65, 3, 1), (69, 4, 0), (67, 5, 1)]))
     out.append(("single_note", [(21, 0, 1)]))
     for pc in range(12):  # a single note of every pitch class (the smallest input: its only context is itself), and two-note inputs
         out.append(("single_note_pitch_class_%d" % pc, [(24 + 12 * (pc % 5) + pc, 0, 1)]))
@@ -139,9 +143,11 @@ def bounded(b):
     rng = random.Random(b.seed + 1)
     for name, rows in arrays:
         nontriv = len(rows) >= 3
-        for unit in ("beat", "sec"):
+        # (the other units a note array can be in - quarters, divisions, MIDI ticks - on the first arrays)
+        more_units = ("quarter", "div", "tick") if name in ("scale", "chords_and_overlaps", "chromatic_sharps_context", "lone_grace_note_before_the_final_note", "flats_context") else ()
+        for unit in ("beat", "sec") + more_units:
             case = {"array": name, "unit": unit}
-            na = _na(rows, unit)
+            na = _na(rows if unit not in ("div", "tick") else [(p_, o_ * 480, d_ * 480) for (p_, o_, d_) in rows], unit)
             ok, sp = b.guard("spelling/total", case, lambda: estimate_spelling(na))
             if ok:
                 good = len(sp) == len(na) and all(S.midi_of(str(s["step"]), int(s["alter"]), int(s["octave"])) == int(p) for s, p in zip(sp, na["pitch"]))
